@@ -148,7 +148,21 @@ class PlainViolation:
 CHILD_TIMEOUT = float(os.environ.get('VERIF_CHILD_TIMEOUT_S', '90'))
 
 
-def in_child(fn, *args):
+HEAVY_POPULATIONS = ('soak', 'capacity', 'huge_threads')
+
+
+def _proc_cpu(pid):
+    try:
+        with open('/proc/%d/stat' % pid) as f:
+            st = f.read()
+        rest = st[st.rindex(')') + 2:].split()
+        return (int(rest[11]) + int(rest[12])) / float(
+            os.sysconf('SC_CLK_TCK'))
+    except (OSError, ValueError, IndexError):
+        return None
+
+
+def in_child(fn, *args, timeout=None):
     """Run fn(*args) in a forked child; return its (pickled) result.  A child
     that does not finish within CHILD_TIMEOUT seconds (C-level unbounded work
     the step meter cannot see) is killed and reported as ChildFailed."""
@@ -174,14 +188,22 @@ def in_child(fn, *args):
             os._exit(code)
     os.close(w)
     chunks = []
-    deadline = time.time() + CHILD_TIMEOUT
+    limit = timeout or CHILD_TIMEOUT
+    t_start = time.time()
     timed_out = False
     while True:
-        left = deadline - time.time()
-        if left <= 0:
+        # the limit is CPU time of the child (a loaded machine must not
+        # turn a slow run into a failure); wall clock only as a last resort
+        wall = time.time() - t_start
+        if wall > limit * 8:
             timed_out = True
             break
-        ready, _, _ = select.select([r], [], [], min(left, 5.0))
+        if wall > limit:
+            cpu = _proc_cpu(pid)
+            if cpu is None or cpu > limit:
+                timed_out = True
+                break
+        ready, _, _ = select.select([r], [], [], 2.0)
         if not ready:
             continue
         b = os.read(r, 1 << 20)
@@ -196,7 +218,7 @@ def in_child(fn, *args):
             pass
         os.waitpid(pid, 0)
         raise ChildFailed('child still running after %.0f s; killed' %
-                          CHILD_TIMEOUT)
+                          (timeout or CHILD_TIMEOUT))
     data = b''.join(chunks)
     _, status = os.waitpid(pid, 0)
     if not data:
@@ -232,7 +254,10 @@ def isolated_execute(spec_mod, check, trace, keep_log=False,
     mod = importlib.import_module(spec_mod)
     if hasattr(mod, 'pre_execute'):
         mod.pre_execute(check, trace)   # parent side; never calls the library
-    return in_child(_exec_job, spec_mod, check, trace, keep_log, want_sample)
+    heavy = isinstance(trace, dict) and \
+        trace.get('population') in HEAVY_POPULATIONS
+    return in_child(_exec_job, spec_mod, check, trace, keep_log, want_sample,
+                    timeout=CHILD_TIMEOUT * 8 if heavy else None)
 
 
 def _gen_job(spec_mod, check, seed, population, tier, lo, hi):
@@ -242,6 +267,7 @@ def _gen_job(spec_mod, check, seed, population, tier, lo, hi):
     for i in range(lo, hi):
         rng = rng_for(check, seed, population, i)
         out.append(mod.generate(check, population, rng, tier))
+        heartbeat()
     return out
 
 
@@ -332,10 +358,26 @@ def _selftest_fault(population, i):
             pass
 
 
+WAL_PATH = [None]
+
+
+def heartbeat():
+    """Called by long runs from harness loops BETWEEN library calls: the
+    run is making progress (a library call that never returns still
+    stalls, because nothing calls this meanwhile)."""
+    p = WAL_PATH[0]
+    if p:
+        try:
+            os.utime(p)
+        except OSError:
+            pass
+
+
 def _run_chunk(args):
     (spec_mod, check, seed, population, tier, lo, hi, wal_path,
      want_sample) = args
     agg = Aggregate()
+    WAL_PATH[0] = wal_path
     if wal_path:
         with open(wal_path, 'w') as f:
             f.write('%s %d\n' % (population, lo))
@@ -373,6 +415,10 @@ def _run_chunk(args):
             else:
                 agg.extra[k] = agg.extra.get(k, 0) + v
         v = res.get('violation')
+        if v is not None and res.get('trace_patch'):
+            # the run found the violation in one explored interleaving:
+            # the replayable trace names it
+            trace = dict(trace, **res['trace_patch'])
         if v is not None:
             key = json.dumps(v.cls)
             if all(json.dumps(x[2]) != key for x in agg.violations):
@@ -393,7 +439,8 @@ def _run_chunk(args):
 # wall-clock backstop is the parent watching the write-ahead files.
 
 class _Child:
-    __slots__ = ('pid', 'job', 'wal', 'out', 'started', 'killed')
+    __slots__ = ('pid', 'job', 'wal', 'out', 'started', 'killed',
+                 'cpu_mark', 'cpu_checked')
 
 
 def _spawn(job, spec_mod, check, seed, tier, wal_dir, serial):
@@ -404,6 +451,8 @@ def _spawn(job, spec_mod, check, seed, tier, wal_dir, serial):
     c.out = os.path.join(wal_dir, 'out%d' % serial)
     c.started = time.time()
     c.killed = False
+    c.cpu_mark = None
+    c.cpu_checked = 0
     sys.stdout.flush()
     sys.stderr.flush()
     pid = os.fork()
@@ -435,6 +484,29 @@ def _kill_group(pid):
             f(pid, signal.SIGKILL)
         except OSError:
             pass
+
+
+_CLK = os.sysconf('SC_CLK_TCK') if hasattr(os, 'sysconf') else 100
+
+
+def _group_cpu(pgid):
+    """CPU seconds used so far by the live processes of a process group
+    (a worker, the run it forked, that run's helpers)."""
+    total = 0
+    try:
+        pids = [d for d in os.listdir('/proc') if d.isdigit()]
+    except OSError:
+        return None
+    for d in pids:
+        try:
+            with open('/proc/%s/stat' % d) as f:
+                st = f.read()
+            rest = st[st.rindex(')') + 2:].split()
+            if int(rest[2]) == pgid:
+                total += int(rest[11]) + int(rest[12])
+        except (OSError, ValueError, IndexError):
+            continue
+    return total / float(_CLK)
 
 
 def _wal_read(path):
@@ -474,7 +546,8 @@ def run_batches(spec_mod, check, tier, plan, workers=None, wall_cap=None,
     stall_limit = float(os.environ.get('VERIF_STALL_S', '30'))
 
     def limit_for(population):
-        return stall_limit * 4 if population == 'sweep' else stall_limit
+        return stall_limit * 4 if population == 'sweep' or \
+            population in HEAVY_POPULATIONS else stall_limit
 
     try:
         while queue or live:
@@ -543,14 +616,38 @@ def run_batches(spec_mod, check, tier, plan, workers=None, wall_cap=None,
                         os.unlink(path)
                     except OSError:
                         pass
-            # watchdog: a run that makes no progress for too long
+            # watchdog: a run that makes no progress for too long.  "Too
+            # long" is measured in CPU seconds the worker's process group
+            # has burnt since its last sign of progress, so that a loaded
+            # machine does not turn slow runs into stalls; wall clock only
+            # as a last resort (8x), for a run that neither progresses nor
+            # computes.
             now = time.time()
             for pid, c in live.items():
                 if c.killed:
                     continue
                 w = _wal_read(c.wal)
                 last = w[2] if w else c.started
-                if now - last > limit_for(c.job[0]):
+                lim = limit_for(c.job[0])
+                if now - last <= lim:
+                    c.cpu_mark = None
+                    continue
+                if now - last > lim * 8:
+                    c.killed = True
+                    _kill_group(pid)
+                    continue
+                if now - getattr(c, 'cpu_checked', 0) < 1.0:
+                    continue
+                c.cpu_checked = now
+                cpu = _group_cpu(pid)
+                if cpu is None:
+                    c.killed = True
+                    _kill_group(pid)
+                    continue
+                if c.cpu_mark is None or c.cpu_mark[0] != last:
+                    # first look since the last progress: start counting
+                    c.cpu_mark = (last, cpu)
+                elif cpu - c.cpu_mark[1] > lim * 0.7:
                     c.killed = True
                     _kill_group(pid)
             if len(info['confirmed_timeouts']) >= 2 and queue is not None \
